@@ -374,13 +374,13 @@ def _enum(prog, q):
 
 def run(chk):
     prog = chk.load()
-    rule_padding(chk, prog)
-    rule_primitives(chk, prog)
-    rule_orthogonal(chk, prog)
-    rule_dim_writers(chk, prog)
-    rule_rotation(chk, prog)
-    rule_tree_flip(chk, prog)
-    rule_merge_join(chk, prog)
+    chk.guard(rule_padding, chk, prog)
+    chk.guard(rule_primitives, chk, prog)
+    chk.guard(rule_orthogonal, chk, prog)
+    chk.guard(rule_dim_writers, chk, prog)
+    chk.guard(rule_rotation, chk, prog)
+    chk.guard(rule_tree_flip, chk, prog)
+    chk.guard(rule_merge_join, chk, prog)
 
 
 _KEYSETS = [([1, 3, 5, 7], [2, 3, 4, 7, 9]), ([2, 3, 4, 7, 9], [1, 3, 5, 7]), ([1, 2, 3], [1, 2, 3]), ([5, 6, 7, 8], [1, 2, 6]), ([1, 2, 6], [5, 6, 7, 8]),
